@@ -83,14 +83,31 @@
        values are the k smallest / largest contributions (C13_contrib_md_smallest, C13_contrib_md_largest; for every list
        of (contribution, index) pairs: C13_select_smallest_entries, C13_select_largest_entries).
        Modelled, not verified: exp(sum(log(ref - p))) is the product of the edge lengths (compared at 1e-9).
+     * HypervolumeContribution3D with reference point (C13Contrib3d.v, model of allContributions as coded: translation by
+       the reference point, std::sort by the third objective, the std::multiset xyFront with its two sentinels and the
+       upper-bound insertion of equal keys, lower_bound / predecessor, the scan over the dominated elements, erase,
+       cutBoxesOnTheLeft, cutBoxesOnTheRight, the boxes pushed for the dominated points and for the new point, the final
+       closing of the boxes of the front) = contrib_spec for EVERY mutually non-dominated point set below the reference
+       point: duplicates (contribution 0), ties in every single objective, points on the reference boundary of any
+       objective (C13_contrib3d_correct; per entry C13_contrib3d_entries: position k of the sorted array carries the
+       contribution of its original index); smallest / largest return k entries with distinct indices, each with the
+       contribution of its index, whose values are the k smallest / largest contributions (C13_contrib3d_smallest,
+       C13_contrib3d_largest).  Loop invariant (C13Contrib3dInvProofs.v): the front is a weak staircase between the
+       sentinels (points with first objective on the boundary behind the right sentinel); every processed point is in the
+       front or weakly dominated in the first two objectives by a front element; the box list of a front element is a
+       chain of boxes whose cell count is the indicator of the cells dominated by that element and by no other processed
+       point; contributions + open box volumes at the current height = exclusive volume below that height (C13_contrib3d_
+       step_invariant).  contrib_spec in dimension 3 = number of exclusively dominated unit cells: C13_contrib_spec_cells.
+       Modelled, not verified: -inf of the sentinels is any value below all coordinates; Box::upper.f3 is dead data.
    NOT PROVED, only compared on every run (tools/c13.py, exact integer arithmetic):
-     * the contribution front end, HOY, 3-D contributions, contributions and subset selection WITHOUT reference
+     * the contribution front end, HOY, contributions and subset selection WITHOUT reference
        point: differential test of the C++ against hv_spec / contrib_spec (extracted) and against an
        independent Python monitor.
      * DC sort for fewer than 2 objectives: the code reads obj[-1] (ndHelperB with k = 0); outside the property's range. *)
 From Coq Require Import List ZArith Permutation Sorted.
 From SharkV Require Import ListAux C13Model C13Proofs C13ProofsFast C13ProofsContrib.
 From SharkV Require Import C13Wfg C13WfgProofs C13Sweep3d C13Sweep3dProofs.
+From SharkV Require Import C13ContribMd C13Contrib3d C13Contrib3dBoxProofs C13Contrib3dSpecProofs C13Contrib3dStepProofs C13Contrib3dInvProofs C13Contrib3dProofs.
 From SharkV Require Import C13Hssp C13HsspEnvProofs C13HsspProofs C13HsspFrontProofs C13Disp C13DispProofs.
 From SharkV Require Import C13Dc C13DcAuxProofs C13DcSweepProofs C13DcProofs.
 From SharkV Require Import C13ContribMd C13ContribMdProofs.
@@ -587,3 +604,73 @@ Theorem C13_contrib_md_example :
   largest_kv 2 (contribs_md_inst (fun _ _ => 0%Z) ref S) = [(36%Z, 4); (12%Z, 0)].
 Proof. exact contrib_md_example. Qed.
 Print Assumptions C13_contrib_md_example.
+
+(* ---- HypervolumeContribution3D.h (with reference point) *)
+Theorem C13_contrib3d_correct :
+  forall ref S, length ref = 3 -> below_ref ref S -> mutually_nondominated S ->
+    Permutation (contribs3d ref S) (combine (contribs_spec ref S) (seq 0 (length S))).
+Proof. exact contribs3d_correct. Qed.
+Print Assumptions C13_contrib3d_correct.
+
+Theorem C13_contrib3d_entries :
+  forall r0 r1 r2 S, below_ref [r0; r1; r2] S -> mutually_nondominated S ->
+    contribs3d [r0; r1; r2] S =
+    map (fun a => (contrib_spec [r0; r1; r2] S (idx a), idx a)) (sort_f3 (translate3 [r0; r1; r2] S)).
+Proof. exact contribs3d_entries. Qed.
+Print Assumptions C13_contrib3d_entries.
+
+Theorem C13_contrib3d_value_per_index :
+  forall ref S v i, length ref = 3 -> below_ref ref S -> mutually_nondominated S ->
+    In (v, i) (contribs3d ref S) -> i < length S /\ v = contrib_spec ref S i.
+Proof. exact contribs3d_value. Qed.
+Print Assumptions C13_contrib3d_value_per_index.
+
+Theorem C13_contrib3d_smallest :
+  forall ref S k, length ref = 3 -> below_ref ref S -> mutually_nondominated S -> k <= length S ->
+    let res := contrib3d_smallest ref S k in
+    map fst res = smallest_k k (contribs_spec ref S) /\ length res = k /\ NoDup (map snd res) /\
+    forall v i, In (v, i) res -> i < length S /\ v = contrib_spec ref S i.
+Proof. exact contrib3d_smallest_correct. Qed.
+Print Assumptions C13_contrib3d_smallest.
+
+Theorem C13_contrib3d_largest :
+  forall ref S k, length ref = 3 -> below_ref ref S -> mutually_nondominated S -> k <= length S ->
+    let res := contrib3d_largest ref S k in
+    map fst res = largest_k k (contribs_spec ref S) /\ length res = k /\ NoDup (map snd res) /\
+    forall v i, In (v, i) res -> i < length S /\ v = contrib_spec ref S i.
+Proof. exact contrib3d_largest_correct. Qed.
+Print Assumptions C13_contrib3d_largest.
+
+(* the sweep on any array sorted by the third objective whose members are pairwise not weakly dominated unless equal
+   in the first two objectives: position k gets the number of cells dominated by point k and by no other position *)
+Theorem C13_contrib3d_sweep :
+  forall pts c0 b0 a0 ninf,
+    (forall i j, i <= j < length pts -> (f3 (nth i pts C13Contrib3dSpecProofs.d0) <= f3 (nth j pts C13Contrib3dSpecProofs.d0))%Z) ->
+    (forall a, In a pts -> (c0 <= f1 a <= 0)%Z /\ (b0 <= f2 a <= 0)%Z /\ (a0 <= f3 a <= 0)%Z) ->
+    (forall a, In a pts -> (ninf < f1 a)%Z /\ (ninf < f2 a)%Z) -> (a0 <= 0)%Z ->
+    (forall i j, i < length pts -> j < length pts ->
+       (f1 (nth i pts C13Contrib3dSpecProofs.d0) <= f1 (nth j pts C13Contrib3dSpecProofs.d0))%Z -> (f2 (nth i pts C13Contrib3dSpecProofs.d0) <= f2 (nth j pts C13Contrib3dSpecProofs.d0))%Z ->
+       (f3 (nth i pts C13Contrib3dSpecProofs.d0) <= f3 (nth j pts C13Contrib3dSpecProofs.d0))%Z ->
+       f1 (nth i pts C13Contrib3dSpecProofs.d0) = f1 (nth j pts C13Contrib3dSpecProofs.d0) /\ f2 (nth i pts C13Contrib3dSpecProofs.d0) = f2 (nth j pts C13Contrib3dSpecProofs.d0)) ->
+    (forall k, k < length pts -> nth k (map fst (all_contributions3d ninf pts)) 0%Z = EV c0 b0 a0 pts k 0) /\
+    length (all_contributions3d ninf pts) = length pts /\
+    map snd (all_contributions3d ninf pts) = map idx pts.
+Proof. exact all_contributions3d_values. Qed.
+Print Assumptions C13_contrib3d_sweep.
+
+Theorem C13_contrib_spec_cells :
+  forall r0 r1 r2 S i lo, below_ref [r0; r1; r2] S -> lower_bound lo S -> i < length S ->
+    contrib_spec [r0; r1; r2] S i = EV (lo - r0) (lo - r1) (lo - r2) (translate3 [r0; r1; r2] S) i 0.
+Proof. exact contrib_spec_cells. Qed.
+Print Assumptions C13_contrib_spec_cells.
+
+Theorem C13_contrib3d_example :
+  let S := [[1; 5; 2]; [2; 3; 3]; [2; 3; 3]; [3; 1; 5]; [1; 4; 5]; [2; 2; 4]; [6; 0; 6]; [0; 6; 6]]%Z in
+  let ref := [6; 6; 6]%Z in
+  below_ref ref S /\ mutually_nondominated S /\
+  contribs3d ref S = [(7%Z, 0); (0%Z, 2); (0%Z, 1); (5%Z, 5); (1%Z, 4); (3%Z, 3); (0%Z, 7); (0%Z, 6)] /\
+  contribs_spec ref S = [7; 0; 0; 3; 1; 5; 0; 0]%Z /\
+  contrib3d_smallest ref S 3 = [(0%Z, 6); (0%Z, 7); (0%Z, 1)] /\
+  contrib3d_largest ref S 2 = [(7%Z, 0); (5%Z, 5)].
+Proof. exact contrib3d_example. Qed.
+Print Assumptions C13_contrib3d_example.
